@@ -65,7 +65,7 @@ class Gen:
         return s, attrs
 
     # ---- inlines: returns (text, [xml nodes/strings]) ----
-    def inlines(self, depth=0, allow_fn=True, notes=None, ban=()):
+    def inlines(self, depth=0, allow_fn=True, notes=None, ban=(), ml=False):
         parts_t, parts_x = [], []
         for i in range(self.rng.randint(1, 3)):
             r = self.rng.random()
@@ -74,11 +74,11 @@ class Gen:
             if r < 0.55 or depth > 1:
                 w = self.words(); parts_t.append(w); parts_x.append(w)
             elif r < 0.62 and 'b' not in ban:
-                t, x = self.inlines(depth + 1, False, None, ban + ('b',)); parts_t.append('**' + t + '**'); parts_x.append(E('b', None, *x))
+                t, x = self.inlines(depth + 1, False, None, ban + ('b',), ml); parts_t.append('**' + t + '**'); parts_x.append(E('b', None, *x))
             elif r < 0.68 and 'i' not in ban:
-                t, x = self.inlines(depth + 1, False, None, ban + ('i',)); parts_t.append('//' + t + '//'); parts_x.append(E('i', None, *x))
+                t, x = self.inlines(depth + 1, False, None, ban + ('i',), ml); parts_t.append('//' + t + '//'); parts_x.append(E('i', None, *x))
             elif r < 0.72 and 'u' not in ban:
-                t, x = self.inlines(depth + 1, False, None, ban + ('u',)); parts_t.append('__' + t + '__'); parts_x.append(E('u', None, *x))
+                t, x = self.inlines(depth + 1, False, None, ban + ('u',), ml); parts_t.append('__' + t + '__'); parts_x.append(E('u', None, *x))
             elif r < 0.77:
                 t, x = self.inlines(depth + 1, False, None, ban); parts_t.append('{{^' + t + '}}'); parts_x.append(E('sup', None, *x))
             elif r < 0.81:
@@ -87,7 +87,12 @@ class Gen:
                 href = self.rng.choice(['http://x.y/z', '#sec_1', '/akn/za/act/2009/1'])
                 t, x = self.inlines(depth + 1, False, None, ban); parts_t.append('{{>' + href + ' ' + t + '}}'); parts_x.append(E('ref', {'href': href}, *x))
             elif r < 0.89:
-                t, x = self.inlines(depth + 1, False, None, ban); parts_t.append('{{*' + t + '}}'); parts_x.append(E('remark', {'status': 'editorial'}, *x))
+                t, x = self.inlines(depth + 1, False, None, ban)
+                if ml and self.rng.random() < 0.5:
+                    # a remark that spans lines: \x01 stands for "line break + the paragraph's indentation"
+                    t2, x2 = self.inlines(depth + 1, False, None, ban)
+                    t, x = t + '\x01' + t2, x + [E('br')] + x2
+                parts_t.append('{{*' + t + '}}'); parts_x.append(E('remark', {'status': 'editorial'}, *x))
             elif r < 0.92:
                 src = self.rng.choice(['a.png', 'http://x/y.jpg']); alt = self.rng.choice([None, 'pic', 'a b'])
                 parts_t.append('{{IMG ' + src + (' ' + alt if alt else '') + '}}')
@@ -116,9 +121,9 @@ class Gen:
     # ---- blocks: each returns (lines, [xml]) at indentation ind ----
     def para(self, ind, plain=False):
         notes = []
-        t, x = self.inlines(0, not plain, notes)
+        t, x = self.inlines(0, not plain, notes, (), True)
         sp = '  ' * ind
-        lines = [sp + t]
+        lines = [sp + t.replace('\x01', '\n' + sp)]
         for m, ft in notes:
             lines.append(sp + 'FOOTNOTE ' + m)
             lines.append(sp + '  ' + ft)
@@ -308,18 +313,23 @@ class Gen:
     def speech_container(self, ind, depth):
         kw = self.rng.choice(sorted(SPEECH_CONTAINERS))
         s, at = self.attr_syntax(0.1)
+        if kw == 'DEBATESECTION' and self.attrs and self.rng.random() < 0.3:
+            s, at = '{name prayers}', {'name': 'prayers'}
         t, pre = self.num_heading()
         lines = ['  ' * ind + kw + s + t]
         if self.rng.random() < 0.2:
             l, x = self.subheading(ind + 1); lines += l; pre += x
         l, x = self.speech_children(ind + 1, depth, 1); lines += l
         attrs = dict(at)
-        if kw == 'DEBATESECTION': attrs['name'] = 'debateSection'      # the schema requires a name on debateSection
+        if kw == 'DEBATESECTION': attrs.setdefault('name', 'debateSection')      # the schema requires a name on debateSection; an explicit one stays
         return lines, [E(SPEECH_CONTAINERS[kw], attrs, *(pre + x))]
 
     def speech_group(self, ind, depth):
         kw = self.rng.choice(sorted(SPEECH_GROUPS))
         s, at = self.attr_syntax(0.1)
+        if self.attrs and self.rng.random() < 0.25:
+            s, at = self.rng.choice([('{by #spk-1}', {'by': '#spk-1'}), ('{by #hon-x|to #minister}', {'by': '#hon-x', 'to': '#minister'})])
+        at = dict(at); at.setdefault('by', '?')          # '?' = derived from the FROM line: not prescribed, not compared
         t, pre = self.num_heading()
         lines = ['  ' * ind + kw + s + t]
         if self.rng.random() < 0.2:
@@ -401,16 +411,20 @@ class Gen:
         return '\n'.join(lines) + '\n', E(root, {'name': root}, *kids)
 
 
-def strip_for_compare(x):
-    """canonical string of a document: no meta, no eIds, attributes sorted, no date"""
+def strip_for_compare(x, expected=None):
+    """canonical string of a document: no meta, no eIds, attributes sorted, no date.  With `expected` (the prescribed
+    tree), a by attribute is compared only where the prescribed tree has an explicit one ('?' marks a derived one)."""
     import copy
     x = copy.deepcopy(x)
     for m in list(x.iter('{%s}meta' % NS)):
         m.getparent().remove(m)
+    if expected is not None:
+        for a, b in zip([e for e in x.iter() if isinstance(e.tag, str)], [e for e in expected.iter() if isinstance(e.tag, str)]):
+            if b.get('by') == '?' and a.get('by') is not None:
+                a.set('by', '?')
     for el in x.iter():
         if isinstance(el.tag, str):
             el.attrib.pop('eId', None)
-            el.attrib.pop('by', None)      # derived speaker reference: no property prescribes its value
             items = sorted(el.attrib.items()); el.attrib.clear()
             for k, v in items: el.set(k, v)
     return etree.tostring(x, encoding='unicode')
